@@ -714,3 +714,92 @@ def rule_runtime_support(rep: Report, repo: Repo):
     ok = got[False] == {"eval"} and all(v.startswith("lambda") and v.endswith(": zero") for v in got[True])
     rep.check(ok, R, "series::BlockSeries default eval returns `zero` (absent term)",
               f"eval given -> {sorted(got[False])}; eval None -> {sorted(got[True])}", repo.loc("series", dflt))
+
+
+# ---------------------------------------------------------------------------
+# automatic deletion of once-used terms never changes a value: only recomputable elements are deleted
+# ---------------------------------------------------------------------------
+
+
+def rule_deletion_safe(rep: Report, repo: Repo):
+    """`del_` may only drop elements that a later request recomputes to the same value.  A start value (`start = ...`)
+    is not recomputable from the term's definition, so every path of `del_` that pops from a cache must be guarded by
+    `index not in <start values of that series>`, and that table must be filled, for every term, from the very data
+    the term's BlockSeries is constructed with."""
+    from .core import nested_defs, own_nodes
+    from .resolve import env_at, rtext
+    from .sem import canon, outcomes
+
+    R = "E9.deletion"
+    sc = repo.find("algorithm_parsing::series_computation", R)
+    loc = lambda n: repo.loc("algorithm_parsing", n)
+    d = [x for x in nested_defs(sc) if x.name == "del_"]
+    if len(d) != 1:
+        raise AnalysisError(R, "del_ not found in series_computation")
+    d = d[0]
+    params = [a.arg for a in d.args.args]
+    if len(params) != 2:
+        raise AnalysisError(R, f"del_ signature {params}")
+    name_p, index_p = params
+    tables = set()
+    n_pop_paths = 0
+    unguarded = []
+    for o in outcomes(d.body, None, env={}, expand=False):
+        pops = [st for kind, st, rv in o.seq if kind == "stmt" and isinstance(rv, ast.Call) and isinstance(rv.func, ast.Attribute)
+                and rv.func.attr in ("pop", "__delitem__")]
+        pops += [ev for ev in o.events if isinstance(ev, ast.Delete)]
+        if not pops:
+            continue
+        n_pop_paths += 1
+        guarded = False
+        for t, pol in o.conds:
+            c = canon(t)
+            if isinstance(c, ast.Compare) and len(c.ops) == 1 and norm(c.left) == index_p:
+                inn = isinstance(c.ops[0], ast.In) and pol is False
+                notin = isinstance(c.ops[0], ast.NotIn) and pol is True
+                if inn or notin:
+                    tb = c.comparators[0]
+                    if isinstance(tb, ast.Call) and isinstance(tb.func, ast.Attribute) and tb.func.attr == "get" and tb.args \
+                            and norm(tb.args[0]) == name_p and isinstance(tb.func.value, ast.Name):
+                        tables.add(tb.func.value.id)
+                        guarded = True
+                    elif isinstance(tb, ast.Subscript) and norm(tb.slice) == name_p and isinstance(tb.value, ast.Name):
+                        tables.add(tb.value.id)
+                        guarded = True
+        if not guarded:
+            unguarded.append(pops[0])
+    if not n_pop_paths:
+        raise AnalysisError(R, "del_: no deleting path found")
+    inst = "algorithm_parsing::series_computation::del_ never deletes a start value (start values cannot be recomputed from the definition)"
+    if unguarded:
+        rep.fail(R, inst, f"`{norm(unguarded[0])[:70]}` is reached without the test `{index_p} not in <start values of {name_p}>`: "
+                 "after the single consumer of a term with `start = ...` has been evaluated at the start order, a later request "
+                 "of that element evaluates the definition instead of returning the start value", loc(unguarded[0]))
+        return
+    rep.ok(R, inst, f"every deleting path is guarded by membership in {sorted(tables)}", loc(d))
+    # the table is filled from the data each term's series starts with
+    ctors = [n for n in own_nodes(sc) if isinstance(n, ast.Assign) and isinstance(n.value, ast.Call) and call_name(n.value) == "BlockSeries"
+             and isinstance(n.targets[0], ast.Subscript) and norm(n.targets[0].value) == "series"]
+    if len(ctors) != 1:
+        raise AnalysisError(R, f"{len(ctors)} constructions `series[...] = BlockSeries(...)`")
+    ct = ctors[0]
+    env = env_at(ct, sc)
+    key = rtext(ct.targets[0].slice, env)
+    data_kw = {k.arg: k.value for k in ct.value.keywords}.get("data")
+    if data_kw is None:
+        raise AnalysisError(R, "terms are constructed without `data=`")
+    D = rtext(data_kw, env)
+    for tname in sorted(tables):
+        fills = [n for n in own_nodes(sc) if isinstance(n, ast.Assign) and isinstance(n.targets[0], ast.Subscript)
+                 and norm(n.targets[0].value) == tname]
+        same_block = [n for n in fills if getattr(n, "_parent", None) is getattr(ct, "_parent", None)]
+        ok = False
+        detail = "no assignment in the term loop"
+        if len(fills) == 1 and same_block:
+            e2 = env_at(fills[0], sc)
+            k2, v2 = rtext(fills[0].targets[0].slice, e2), rtext(fills[0].value, e2)
+            allowed = (D, f"{D} or {{}}", f"{D} or ()", f"set({D} or ())", f"dict({D} or {{}})", f"({D} or {{}}).keys()", f"frozenset({D} or ())")
+            ok = k2 == key and v2 in allowed
+            detail = f"`{tname}[{k2}] = {v2}`; series data `{D}`"
+        rep.check(ok, R, f"algorithm_parsing::series_computation `{tname}` holds, for every term, the keys of the data its series starts with",
+                  detail, loc(fills[0] if fills else sc))
